@@ -51,6 +51,17 @@ def facts_of_cond(cfg: CFG, c: Node, label: str, depth=0) -> Set[str]:
                 out.add("OLD_UNDEF" if und else "OLD_DEF")
         if isinstance(op, (ast.In, ast.NotIn)):
             inn = T if isinstance(op, ast.In) else not T
+            if isinstance(r, ast.Name) and role(r) == "?":
+                # membership in a local derived from the new/old value
+                for d in reaching_defs(cfg, c, r.id):
+                    v = def_value(d, r.id)
+                    if isinstance(v, (ast.DictComp, ast.ListComp, ast.SetComp, ast.GeneratorExp)):
+                        src = role(v.generators[0].iter)
+                        filtered = any(g.ifs for g in v.generators)
+                        if src == "new":
+                            out.add(("IN_NEW" if inn else "NOT_IN_NEW") + ("_SUBSET" if filtered else ""))
+                        if src == "old":
+                            out.add(("IN_OLD" if inn else "NOT_IN_OLD") + ("_SUBSET" if filtered else ""))
             if role(r) == "new":
                 out.add("IN_NEW" if inn else "NOT_IN_NEW")
             if role(r) == "old":
@@ -130,6 +141,8 @@ def judge(label: str, kind: str, facts: Set[str], same_value: bool, in_adapter_a
             return False, "labelled create on a path where an old value exists: create must only fill a missing value and never alter an existing one"
         return None, "create without a recognised 'missing' guard"
     if label == "trim":
+        if kind == "Delete" and "NOT_IN_NEW_SUBSET" in facts and "NOT_IN_NEW" not in facts:
+            return False, "labelled trim for a key/element that is merely absent from a filtered subset of the observed ones: keys that were accessed (but e.g. not compared yet) are deleted, trim may only remove what was never used"
         if kind == "Delete" and ({"NOT_IN_NEW"} & facts):
             return True, "trim deletes an unobserved element/key"
         if kind == "Replace" and {"CMP_ON_T", "CMP_NO_F"} <= facts:
